@@ -32,18 +32,41 @@ impl C05 {
         if via_save && stale > 0 {
             cx.count(if stale == 1 { "saved_over_existing_longer_file" } else { "saved_over_existing_same_length_file" });
         }
+        // history: every third case first asks the writer for a library it must refuse AFTER having produced some text
+        // (a macro SOURCE under VERSION 5.8); nothing of that call may show in the next one
+        if cx.n % 3 == 1 {
+            let mut bad = LefLibrary::new();
+            bad.version = Some(lef21::LefDecimal::new(58, 1));
+            let mut m = lef21::LefMacro::new("refused");
+            m.source = Some(lef21::LefDefSource::User);
+            bad.macros.push(m);
+            let _ = guard(|| bad.to_string());
+            let _ = guard(|| bad.save(&cx.tmp("refused.lef")));
+            let _ = std::fs::remove_file(cx.tmp("refused.lef"));
+            cx.count("preceded_by_a_refused_write");
+        }
         let written = guard(|| -> Result<String, lef21::LefError> {
             if via_save {
                 // history dimension: every other case saves over an existing, much longer file
                 if stale == 1 {
-                    let _ = std::fs::write(&path, "# older copy\nMACRO old\n  SIZE 1 BY 1 ;\nEND old\n".repeat(2000));
+                    // an older, longer file: text, then bytes that are not UTF-8 and characters that cannot begin a LEF token
+                    let mut old = "# older copy\nMACRO old\n  SIZE 1 BY 1 ;\nEND old\n".repeat(2000).into_bytes();
+                    old.extend_from_slice(&[b'_', b'[', b'<', b'/', 0xFF, 0xFE, 0xC3, 0x28, b'\n'].repeat(500));
+                    let _ = std::fs::write(&path, old);
                 } else if stale == 2 {
                     if let Ok(t) = lib.to_string() {
                         let _ = std::fs::write(&path, "#".repeat(t.len()));
                     }
                 }
                 lib.save(&path)?;
-                Ok(std::fs::read_to_string(&path).unwrap_or_default())
+                // the file must hold exactly what to_string produces (nothing of an older file, nothing missing)
+                let on_disk = std::fs::read(&path).unwrap_or_default();
+                if let Ok(t) = lib.to_string() {
+                    if t.as_bytes() != &on_disk[..] {
+                        return Err(lef21::LefError::Str(format!("SAVE-DIFFERS-FROM-TO_STRING file={} bytes, to_string={} bytes", on_disk.len(), t.len())));
+                    }
+                }
+                Ok(String::from_utf8_lossy(&on_disk).into_owned())
             } else {
                 lib.to_string()
             }
@@ -52,6 +75,10 @@ impl C05 {
         let text = match written {
             Err(c) => {
                 cx.violation(&format!("write-panic|{}|{}", c.site(), c.norm_msg()), json!({"panic": c.msg, "source": src}));
+                return;
+            }
+            Ok(Err(lef21::LefError::Str(e))) if e.starts_with("SAVE-DIFFERS-FROM-TO_STRING") => {
+                cx.violation("save-file-differs-from-to_string", json!({"what": e, "stale_mode": stale}));
                 return;
             }
             Ok(Err(e)) => {
@@ -105,7 +132,13 @@ impl Prop for C05 {
     fn run_case(&self, cx: &mut Cx) {
         match cx.gen.as_str() {
             "reader-image" => {
-                let cfg = LefCfg { liberal_versions: true, ..Default::default() };
+                // one case in 300 is a big library (tens to hundreds of KB when written) full of non-ASCII string literals
+                let cfg = if cx.n % 300 == 7 {
+                    cx.count("big_libraries");
+                    LefCfg { liberal_versions: true, max_macros: 40 + cx.rng.usize(160), hostile_strings: true, ..Default::default() }
+                } else {
+                    LefCfg { liberal_versions: true, ..Default::default() }
+                };
                 let g = rand_lef(&mut cx.rng, &cfg);
                 let (text, _) = render(&g, &cfg, &mut cx.rng, Style::plain());
                 match open_text(cx, &text) {
